@@ -292,7 +292,7 @@ def run_hist_check(prop, tier):
 MATRIX_CELLS = ["construct(size...)", "construct(size..., allocator)", "default construct", "copy construct", "move construct", "copy assign", "move assign", "emplace_back",
                 "pop_back", "erase(position)", "erase(first,last)", "clear", "reserve", "swap", "vector comparisons", "reference comparisons", "element comparisons", "iteration",
                 "structured bindings: reference", "structured bindings: const_reference", "structured bindings: element", "reference assignment / swap", "element construction",
-                "element assignment / swap / reference = element", "accessors"]
+                "element assignment / swap / reference = element", "accessors", "allocator type that is an empty final class"]
 MATRIX_CONFIGS = [
     # one list per parameter-list category x value-type category
     ("P:u32,P:f32", ["std", "s000"]), ("P:char,P:u32@8", ["s111"]), ("P:str,P:Tr8", ["s010"]), ("P:uptr,P:u16", ["s000"]),
